@@ -432,3 +432,85 @@ Proof.
       cbn [replace_all]. rewrite Es, strip_prefix_app.
       unfold brace at 1. rewrite IH; [reflexivity|auto|auto|]. lia.
 Qed.
+
+(* ------------------------------------------------------------------ *)
+(* -X importpath.name=value                                             *)
+(* ------------------------------------------------------------------ *)
+
+Lemma index_of_app_notin c a b :
+  forallb (fun x => negb (x =? c)) a = true ->
+  index_of c (a ++ c :: b) = Some (length a).
+Proof.
+  induction a as [|x a IH]; intros H; cbn [app index_of length].
+  - now rewrite N.eqb_refl.
+  - cbn [forallb] in H. apply andb_true_iff in H as [H1 H2]. apply negb_true_iff in H1.
+    rewrite H1, (IH H2). reflexivity.
+Qed.
+
+Lemma last_index_of_none c a :
+  forallb (fun x => negb (x =? c)) a = true -> last_index_of c a = None.
+Proof.
+  induction a as [|x a IH]; intros H; cbn; [reflexivity|].
+  cbn [forallb] in H. apply andb_true_iff in H as [H1 H2]. apply negb_true_iff in H1.
+  now rewrite (IH H2), H1.
+Qed.
+
+Lemma last_index_of_app c a b :
+  forallb (fun x => negb (x =? c)) b = true ->
+  last_index_of c (a ++ c :: b) = Some (length a).
+Proof.
+  intros Hb. induction a as [|x a IH]; cbn [app last_index_of length].
+  - rewrite (last_index_of_none c b Hb), N.eqb_refl. reflexivity.
+  - now rewrite IH.
+Qed.
+
+Lemma firstn_app_exact {A} (a b : list A) : firstn (length a) (a ++ b) = a.
+Proof. rewrite firstn_app, Nat.sub_diag, firstn_all. cbn. apply app_nil_r. Qed.
+
+Lemma skipn_app_exact {A} (a b : list A) : skipn (length a) (a ++ b) = b.
+Proof. rewrite skipn_app, Nat.sub_diag, skipn_all. reflexivity. Qed.
+
+(* package path free of "=", variable name free of "." and "=": any value comes back *)
+Lemma xflag_split_join pkg name value :
+  forallb (fun x => negb (x =? EQ)) pkg = true ->
+  forallb (fun x => negb (x =? EQ)) name = true ->
+  forallb (fun x => negb (x =? DOT)) name = true ->
+  xflag_split (pkg ++ DOT :: name ++ EQ :: value) = Some (pkg, name, value).
+Proof.
+  intros Hp Hn Hd. unfold xflag_split.
+  assert (E1 : pkg ++ DOT :: name ++ EQ :: value = (pkg ++ DOT :: name) ++ EQ :: value).
+  { rewrite <- app_assoc. reflexivity. }
+  rewrite E1 at 1. rewrite index_of_app_notin.
+  2:{ rewrite forallb_app, Hp. cbn [forallb]. rewrite Hn. reflexivity. }
+  assert (E2 : firstn (S (length (pkg ++ DOT :: name))) (pkg ++ DOT :: name ++ EQ :: value)
+               = pkg ++ DOT :: (name ++ [EQ])).
+  { rewrite E1. replace (S (length (pkg ++ DOT :: name))) with (length ((pkg ++ DOT :: name) ++ [EQ]))
+      by (rewrite app_length; cbn; lia).
+    replace ((pkg ++ DOT :: name) ++ EQ :: value) with (((pkg ++ DOT :: name) ++ [EQ]) ++ value)
+      by (rewrite <- !app_assoc; reflexivity).
+    rewrite firstn_app_exact. rewrite <- !app_assoc. reflexivity. }
+  rewrite E2. rewrite last_index_of_app.
+  2:{ rewrite forallb_app, Hd. reflexivity. }
+  f_equal. f_equal; [f_equal|].
+  - apply firstn_app_exact.
+  - replace (S (length pkg)) with (length (pkg ++ [DOT])) by (rewrite app_length; cbn; lia).
+    replace (pkg ++ DOT :: name ++ EQ :: value) with ((pkg ++ [DOT]) ++ name ++ EQ :: value)
+      by (rewrite <- app_assoc; reflexivity).
+    rewrite skipn_app_exact.
+    replace (length (pkg ++ DOT :: name) - length (pkg ++ [DOT]))%nat with (length name)
+      by (rewrite !app_length; cbn; lia).
+    apply firstn_app_exact.
+  - rewrite E1. replace (S (length (pkg ++ DOT :: name))) with (length ((pkg ++ DOT :: name) ++ [EQ]))
+      by (rewrite app_length; cbn; lia).
+    replace ((pkg ++ DOT :: name) ++ EQ :: value) with (((pkg ++ DOT :: name) ++ [EQ]) ++ value)
+      by (rewrite <- !app_assoc; reflexivity).
+    apply skipn_app_exact.
+Qed.
+
+(* merged compiler flags: what was rendered into the environment variables
+   comes back flag by flag, followed by the configured lists, in order *)
+Lemma merge_compiler_roundtrip fs1 fs2 cfg_cc cfg_c :
+  forallb wf_flag fs1 = true -> forallb wf_flag fs2 = true ->
+  merge_compiler (join_sp (map pc_render fs1)) (join_sp (map pc_render fs2)) cfg_cc cfg_c
+  = map pc_value fs1 ++ map pc_value fs2 ++ cfg_cc ++ cfg_c.
+Proof. intros H1 H2. unfold merge_compiler. now rewrite !pc_split_roundtrip. Qed.
